@@ -323,3 +323,68 @@ def _p2t(sim, m, a):
 def _t2p(sim, m, a):
     t = int(a["tick"])
     return lambda: m.tick_to_price(t)
+
+
+def base_quote(mw):
+    q = mw["quote"]
+    b = mw["token1"] if q == mw["token0"] else mw["token0"]
+    return b, q
+
+
+def random_uni_op(rp, mw, cur_tick, hostile=0.15):
+    """One random UniLpMarket operation (no bar/phase) around the tick `cur_tick`; `hostile` = share of
+    rejection recipes (oversize amounts, unknown positions, bad ticks)."""
+    sp = spacing_of(mw["fee"])
+    b, q = base_quote(mw)
+    name = mw["name"]
+    r = rp.random()
+
+    def rng_ticks():
+        lo = (int(cur_tick) // sp) * sp + rp.randint(-10, 6) * sp
+        return lo, lo + rp.randint(1, 14) * sp
+
+    if r < hostile:
+        kind = rp.choice(["sell_too_much", "buy_too_much", "add_too_much", "remove_unknown", "collect_unknown", "bad_tick", "neg_liq", "swap_same"])
+        if kind == "sell_too_much":
+            return {"op": "uni.sell", "m": name, "a": {"amount": {"f": f"wallet:{b}", "x": "1.7"}}, "hostile": kind}
+        if kind == "buy_too_much":
+            return {"op": "uni.buy", "m": name, "a": {"amount": {"abs": "1e14"}}, "hostile": kind}
+        if kind == "add_too_much":
+            lo, hi = rng_ticks()
+            side = rp.choice(["base", "quote", "both"])
+            a = {"lo": lo, "hi": hi, "base": {"f": f"wallet:{b}", "x": "3" if side != "quote" else "0.01"}, "quote": {"f": f"wallet:{q}", "x": "3" if side != "base" else "0.01"}}
+            return {"op": "uni.add_by_tick", "m": name, "a": a, "hostile": kind}
+        if kind == "remove_unknown":
+            return {"op": "uni.remove", "m": name, "a": {"pos": {"lo": 887000 // sp * sp - sp, "hi": 887000 // sp * sp}}, "hostile": kind}
+        if kind == "collect_unknown":
+            return {"op": "uni.collect", "m": name, "a": {"pos": {"lo": 887000 // sp * sp - sp, "hi": 887000 // sp * sp}}, "hostile": kind}
+        if kind == "bad_tick":
+            lo, hi = rng_ticks()
+            return {"op": "uni.add_by_tick", "m": name, "a": {"lo": lo + 1, "hi": hi + 3, "trim": False, "base": {"f": f"wallet:{b}", "x": "0.01"}, "quote": {"f": f"wallet:{q}", "x": "0.01"}}, "hostile": kind}
+        if kind == "neg_liq":
+            return {"op": "uni.remove", "m": name, "a": {"pos": {"i": 0}, "liq": {"abs": "-5"}}, "hostile": kind}
+        return {"op": "uni.swap", "m": name, "a": {"from": b, "to": b, "amount": {"abs": "1"}}, "hostile": kind}
+    kind = rp.choice(["add", "add", "add", "remove", "remove", "collect", "buy", "sell", "swap", "even", "remove_all", "add_by_value"])
+    if kind == "add":
+        lo, hi = rng_ticks()
+        return {"op": "uni.add_by_tick", "m": name, "a": {"lo": lo, "hi": hi, "base": {"f": f"wallet:{b}", "x": str(round(rp.uniform(0.01, 0.2), 3))}, "quote": {"f": f"wallet:{q}", "x": str(round(rp.uniform(0.01, 0.2), 3))}}}
+    if kind == "remove":
+        a = {"pos": {"i": rp.randint(0, 5)}, "collect": rp.random() < 0.5}
+        if rp.random() < 0.5:
+            a["liq"] = {"f": f"liq:{name}#{a['pos']['i']}", "x": str(round(rp.uniform(0.1, 1.3), 2))}
+        return {"op": "uni.remove", "m": name, "a": a}
+    if kind == "collect":
+        return {"op": "uni.collect", "m": name, "a": {"pos": {"i": rp.randint(0, 5)}}}
+    if kind == "buy":
+        return {"op": "uni.buy", "m": name, "a": {"amount": {"f": f"wallet:{b}", "x": str(round(rp.uniform(0, 0.05), 3))}}}
+    if kind == "sell":
+        return {"op": "uni.sell", "m": name, "a": {"amount": {"f": f"wallet:{b}", "x": str(round(rp.uniform(0, 0.3), 3))}}}
+    if kind == "swap":
+        f, t = (b, q) if rp.random() < 0.5 else (q, b)
+        return {"op": "uni.swap", "m": name, "a": {"from": f, "to": t, "amount": {"f": f"wallet:{f}", "x": str(round(rp.uniform(0.001, 0.1), 3))}}}
+    if kind == "even":
+        return {"op": "uni.even_rebalance", "m": name, "a": {}}
+    if kind == "remove_all":
+        return {"op": "uni.remove_all", "m": name, "a": {}}
+    lo, hi = rng_ticks()
+    return {"op": "uni.add_by_value", "m": name, "a": {"lo": lo, "hi": hi, "value": {"f": f"wallet:{q}", "x": str(round(rp.uniform(0.01, 0.2), 3))}}}
